@@ -238,7 +238,8 @@ def cause (s : WState) : Option Ev :=
   | none => if timedOut s.timeout s.lastRx [] s.now then some .timeout else none
 
 def killLink (l : Link) : Link :=
-  if l.kind.userOwned then { l with avail := l.avail + l.tableHeld, tableHeld := 0 } else { l with alive := false }
+  if l.kind.userOwned then { l with avail := l.avail + l.tableHeld, tableHeld := 0 }
+  else { l with alive := false, tableHeld := 0 }
 
 def wstep (s : WState) : Label → Option WState
   | .start k i need holds =>
